@@ -263,6 +263,12 @@ func c17Us(v int64) time.Duration {
 
 func c17Net(sc *c17Scenario) *simnet.Net {
 	n := simnet.New()
+	// Conn.Close passes a gate before the socket is really closed, so that
+	// whatever a caller does before closing (e.g. releasing its slot) can be
+	// overtaken by other goroutines. Safe here: no connection is closed under
+	// a real mutex during a run (no http.Server.Close; switched off again
+	// before the HTTP server is shut down).
+	n.GateOnClose = true
 	seg, delay := sc.SegSize, c17Us(sc.DelayUs)
 	if seg > 0 || delay > 0 {
 		n.PlanFor = func(id int, addr string) (simnet.DirPlan, simnet.DirPlan) {
@@ -441,6 +447,8 @@ type c17SrvConn struct {
 }
 
 func (c *c17SrvConn) Close() error {
+	// the connection counts as open until the underlying (simnet) close has
+	// really happened; that close passes a gate first (GateOnClose)
 	err := c.Conn.Close()
 	c.h.onServerClose(c.id)
 	return err
@@ -753,6 +761,7 @@ func c17ExecHTTP(r *sim.Run, sc *c17Scenario) {
 	h.teardown = true
 	h.silent = true
 	r.SetInvariant(nil)
+	n.GateOnClose = false // http.Server.Shutdown closes idle connections under its own mutex
 	shutdown()
 
 	if h.sawSaturated {
